@@ -191,3 +191,44 @@ Definition disjointb (cells : list nat) (ws : list (nat * N)) : bool :=
 
 (* alias table rows: (result kind, library buffer kind, observed to alias) *)
 Definition alias_free (rows : list (N * N * bool)) : bool := forallb (fun r => negb (snd r)) rows.
+
+(* tables as lists (Gen/OwnTable.v) *)
+Definition nmem (x : N) (l : list N) : bool := existsb (N.eqb x) l.
+Definition pmem (x : N * N) (l : list (N * N)) : bool :=
+  existsb (fun y => N.eqb (fst x) (fst y) && N.eqb (snd x) (snd y)) l.
+Definition tbl1 (l : list N) : N -> bool := fun ty => nmem ty l.
+Definition tbl2 (l : list (N * N)) : N -> N -> bool := fun ty f => pmem (ty, f) l.
+(* no slot in which the parser stores a shared object is one the release goes on into *)
+Definition shared_not_descended (shared descend : list (N * N)) : bool :=
+  forallb (fun e => negb (pmem e descend)) shared.
+(* nesting depth of containers followed by a release (AST > statement > expression, with room) *)
+Definition own_depth : nat := 8.
+
+(* model-side check of one implementation history (correspondence): the history is well formed for the
+   model, the pools hold exactly (at least, when the implementation history lost pooled objects through
+   failed parses) the objects observed in the real pools, without duplicates, and every held tree reaches
+   exactly the objects the implementation reaches, all owned by that tree *)
+Section Check.
+  Variable pooled_ty : N -> bool.
+  Variable container : N -> bool.
+  Variable descend : N -> N -> bool.
+  Variable keeps : N -> N -> bool.
+  Variable budget : nat.
+  Definition own_case := (list op * list id * bool * list (nat * id * list id))%type.
+  Definition check_case (c : own_case) : bool :=
+    let '(h, exp_pool, lossy, held) := c in
+    let s := run pooled_ty container descend keeps budget own_depth init h in
+    wf_histb pooled_ty container descend keeps budget own_depth init h
+    && nodupb (pool s)
+    && subsetb exp_pool (pool s) && (lossy || subsetb (pool s) exp_pool)
+    && forallb (fun tr => let '(t, r, ids) := tr in
+                  seteqb (reach_list (S (S (length ids + length ids))) (cont s) [r] []) ids
+                  && forallb (fun i => owner_is t (own s i)) ids) held.
+  Fixpoint bad_cases (k : N) (cs : list own_case) : list N :=
+    match cs with
+    | [] => []
+    | c :: r => if check_case c then bad_cases (N.succ k) r else k :: bad_cases (N.succ k) r
+    end.
+  Definition first_bad_op (c : own_case) : option nat :=
+    let '(h, _, _, _) := c in first_bad pooled_ty container descend keeps budget own_depth 0 init h.
+End Check.
